@@ -109,7 +109,7 @@ func callGuarded(k *kernel, s []byte, c byte) (res int, fault string) {
 
 func init() {
 	props["C13"] = func(x *Ctx) {
-		x.limit = 6000
+		x.limit = 14000
 		old := debug.SetPanicOnFault(true)
 		defer debug.SetPanicOnFault(old)
 		g, err := newGuarded(3)
@@ -185,8 +185,10 @@ func init() {
 					Detail: fmt.Sprintf("got %d want %d: len=%d start%%64=%d %s c=%#x", got, want, len(s), startAlign(s), where, c)})
 			}
 			// a sample goes through the extracted scalar definition as well
-			if len(s) <= 300 && written[k.model] < 2000 && nCalls%7 == 0 {
-				written[k.model]++
+			// (and through the x86 machine model run on the translated assembly: lib/extra.py phase_C13);
+			// stratified by length so that every 16-byte bucket up to 320 bytes is represented
+			if wk := fmt.Sprintf("%s/%d", k.model, len(s)/16); len(s) <= 320 && written[wk] < 70 && (nCalls%7 == 0 || len(s) > 32) {
+				written[wk]++
 				x.raw(kcase(k, s, c), itoa(got), true)
 			}
 			if got >= 0 {
